@@ -9,6 +9,7 @@ import (
 	"go/types"
 	"math/big"
 	"sort"
+	"strings"
 
 	"bifrostverify/an"
 
@@ -544,4 +545,123 @@ func noUseAfterScrub(c *an.Check, fns []*ssa.Function, writeOnlyDst map[string]i
 		}
 	}
 	c.Require(bad == "" && n >= 1, "ORDER", "secret buffers are not used after they were wiped", nil, "", n, fmt.Sprintf("%d scrub sites; no later call reads a wiped buffer", n), bad)
+}
+
+// scrubOwnStorage: a function wipes only storage it produced itself. The buffer handed to scrub.Scrub (direct or
+// deferred) must be rooted in a local allocation or in the result of a producer that returns fresh storage; wiping a
+// parameter, a view of the caller's key (crypto.PrivKeyToStdKey returns a pointer into the key object) or a package
+// variable destroys the caller's data — e.g. append(callerKey[:], ctx...) aliases callerKey whenever ctx is empty.
+// freshProducers lists the callees whose result is storage owned by the caller of that callee (each confirmed by reading).
+var freshProducers = map[string]string{
+	"util/extra25519.PrivateKeyToCurve25519": "returns h.Sum(nil): a fresh 64-byte digest (privateScalarProvenance decides it is derived from a copy)",
+	"util/extra25519.PublicKeyToCurve25519":  "returns BytesMontgomery(): a fresh 32-byte slice",
+	"crypto/ed25519.NewKeyFromSeed":          "allocates the 64-byte key it returns",
+	"crypto/ed25519.GenerateKey":             "allocates both keys",
+	"(crypto/ed25519.PrivateKey).Public":     "allocates the 32-byte public key it returns",
+	"(*crypto/ecdh.PrivateKey).ECDH":         "returns a fresh shared-secret slice",
+	"(*crypto/ecdh.PrivateKey).Bytes":        "returns a copy",
+	"(*crypto/ecdh.PublicKey).Bytes":         "returns a copy",
+}
+
+func scrubOwnStorage(c *an.Check, construct string, fns []*ssa.Function) int {
+	p := c.P
+	n, bad := 0, ""
+	for _, fn := range fns {
+		if fn == nil {
+			continue
+		}
+		c.Touch(fn)
+		for _, g := range an.WithClosures(fn) {
+			for _, b := range g.Blocks {
+				for _, ins := range b.Instrs {
+					var cc *ssa.CallCommon
+					switch x := ins.(type) {
+					case *ssa.Call:
+						cc = x.Common()
+					case *ssa.Defer:
+						cc = x.Common()
+					}
+					if cc == nil {
+						continue
+					}
+					fo := an.CallObj(cc)
+					if fo == nil || fo.Name() != "Scrub" || fo.Pkg() == nil || !strings.HasSuffix(fo.Pkg().Path(), "/scrub") || len(cc.Args) == 0 {
+						continue
+					}
+					n++
+					for r := range an.AliasRoots(cc.Args[0]) {
+						why := ""
+						switch x := r.(type) {
+						case *ssa.Parameter:
+							why = "parameter " + x.Name()
+						case *ssa.FreeVar:
+							if _, isPtrToSlice := x.Type().Underlying().(*types.Pointer); !isPtrToSlice {
+								why = "captured variable " + x.Name()
+							}
+						case *ssa.Global:
+							why = "package variable " + x.Name()
+						case *ssa.UnOp:
+							if x.Op == token.MUL {
+								switch base := x.X.(type) {
+								case *ssa.Alloc:
+								case *ssa.FreeVar:
+									// a captured local of the enclosing function: judged through its binding
+									if bnd := p.Binding(base); bnd != nil {
+										if _, isAlloc := bnd.(*ssa.Alloc); !isAlloc {
+											why = "storage reached through captured " + base.Name()
+										}
+									}
+								default:
+									why = "storage reached through the pointer " + x.X.Name() + " (a view of someone else's object)"
+								}
+							}
+						case *ssa.Call:
+							if bn := an.BuiltinName(x); bn != "" {
+								break
+							}
+							name := ""
+							if x.Call.IsInvoke() {
+								name = "(" + x.Call.Value.Type().String() + ")." + x.Call.Method.Name()
+							} else if f := x.Call.StaticCallee(); f != nil {
+								name = strings.TrimPrefix(f.String(), an.Mod+"/")
+								name = strings.ReplaceAll(name, an.Mod+"/", "")
+							}
+							switch {
+							case freshProducers[name] != "":
+							case aliasPassThrough(x):
+							default:
+								why = "the result of " + name + ", which is not known to return storage owned by this function"
+							}
+						}
+						if why != "" {
+							bad = fmt.Sprintf("%s wipes %s at %s", an.FuncName(g), why, p.Pos(ins.Pos()))
+						}
+					}
+				}
+			}
+		}
+	}
+	c.Sites(n)
+	c.Require(bad == "" && n > 0, "OWNERSHIP", construct, fns[0], "", n, "every scrub.Scrub argument is rooted in a local allocation or a fresh-storage producer", func() string {
+		if bad != "" {
+			return bad + ": the caller's data is destroyed (e.g. append(key[:], ctx...) aliases key when ctx is empty)"
+		}
+		return "no scrub call found (anchor drift)"
+	}())
+	return n
+}
+
+// aliasPassThrough: calls AliasRoots walks through (their result aliases the destination argument, which is judged itself).
+func aliasPassThrough(x *ssa.Call) bool {
+	name := ""
+	if x.Call.IsInvoke() {
+		name = x.Call.Method.Name()
+	} else if fo := an.CallObj(x.Common()); fo != nil {
+		name = fo.Name()
+	}
+	switch name {
+	case "Sum", "Seal", "Open", "AppendBinary", "AppendUvarint", "AppendVarint", "Decode", "Encode":
+		return true
+	}
+	return false
 }
